@@ -163,3 +163,12 @@ Proof.
   intros Hr Hd HL Hl Hi. rewrite (tmsGrid_round e d L HL Hd).
   apply round_grid_routing; try assumption.
 Qed.
+
+(** every grid FromTileMatrixSet builds stores an extent that covers its computed pixels
+    (the resolution is rounded down), provided the extent is at least as high as wide *)
+Lemma tmsGrid_rootCovers e d : emaxx e - eminx e <= emaxy e - eminy e -> RootCovers (tmsGrid e d).
+Proof.
+  intro Hsq. unfold RootCovers, ProofsLine.SubE, ProofsDescent.rootBox, quadExtent.
+  rewrite quadSpan_root. unfold tmsGrid, gsize. cbn [gext gres gdeep eminx eminy emaxx emaxy].
+  pose proof (Z.mul_div_le (emaxx e - eminx e) (pow2 d) (pow2_pos d)) as H. lia.
+Qed.
